@@ -942,3 +942,33 @@ def shared_accumulator_arguments(prog, fi, absorbing=None):
                     else:
                         break
     return out
+
+
+def reaching_defs(fi, name, use_astnode):
+    """the bindings of local `name` that can reach the use: there is a path from the binding to the use that passes no other binding
+    of the name (classic reaching definitions on the statement flow graph)"""
+    c = cfg_of(fi)
+    env = terms_of(fi).env
+    use = c.node_containing(use_astnode)
+    if use is None:
+        return []
+    bnodes = []
+    for b in env.bindings.get(name, []):
+        if b.kind == "param":
+            bn = c.entry
+        else:
+            bn = c.node_of(b.stmt) if isinstance(b.stmt, ast.stmt) else None
+            if bn is None:
+                bn = c.node_containing(b.stmt)
+        if bn is not None:
+            bnodes.append((b, bn))
+    out = []
+    for (b, bn) in bnodes:
+        others = [x for (_b, x) in bnodes if x is not bn and x is not use]
+        if bn is c.entry:
+            r = c.reachable(blocked=others)
+        else:
+            r = c.reachable_after(bn, blocked=others)
+        if use.idx in r:
+            out.append(b)
+    return out
